@@ -55,6 +55,15 @@ Theorem decoded_text_encodes_back :
 Proof. exact chars_of_sound. Qed.
 Print Assumptions decoded_text_encodes_back.
 
+(* Non-vacuity: what the decoder rejects (overlong C0 AF and E0 80 80, the surrogate ED A0 80, F4 90 80 80
+   above U+10FFFF, a truncated E3 81) and the boundary encodings it accepts *)
+Example decoder_edges :
+  map valid_utf8 [[192; 175]; [224; 128; 128]; [237; 160; 128]; [244; 144; 128; 128]; [227; 129]; [128]; [245; 128; 128; 128]]
+    = [false; false; false; false; false; false; false]
+  /\ map chars_of [[194; 128]; [223; 191]; [224; 160; 128]; [237; 159; 191]; [238; 128; 128]; [240; 144; 128; 128]; [244; 143; 191; 191]]
+    = [Some [128]; Some [2047]; Some [2048]; Some [55295]; Some [57344]; Some [65536]; Some [1114111]].
+Proof. vm_compute. split; reflexivity. Qed.
+
 (* (4) the byte length stored with a pattern (EdgeLabel::num_bytes = len_utf8) is the length of its
    encoding *)
 Theorem len_utf8_is_encoded_length : forall c, length (encode_char c) = N.to_nat (len_utf8 c).
